@@ -95,7 +95,9 @@ class Evaluator:
         return ('lit', v, str(x.get('span')))
 
     def e_This(self, p, e):
-        return ('this',)
+        # `this` is fixed for an activation except in a derived-class constructor, where super() initialises it (a read before
+        # that throws): its value is indexed by the number of super() calls evaluated so far
+        return ('this', sum(1 for ev in self.trace if ev and ev[0] == 'super'))
 
     def e_Ident(self, p, e):
         if is_temp_ident(e):
